@@ -1,13 +1,14 @@
 """C12 - the circuit boolean optimizer returns an equivalent, no larger circuit."""
 
 import numpy as np
+from hypothesis import strategies as st
 
-from vlib import gen_circ, sims
+from vlib import boolsem, gen_circ, sims
 
 ID = "C12"
 SHARDS = 32
 RULE = (
-    "Hypothesis generates circuits on 1..5 qubits: classical sections of 1..8 gates (X/CX/CCX/MCX) between non-classical gates "
+    "Hypothesis generates circuits on 1..5 qubits (and, one case in six, purely classical circuits on 10..16 qubits with swap triples on the highest qubits, compared on all 2^n basis states with the reversible simulator): classical sections of 1..8 gates (X/CX/CCX/MCX) between non-classical gates "
     "(H/Z/S/T/Y/P/CZ/CP/SWAP) and barriers, with boosted shapes (CX-swap triples and other pure permutations, sections cancelling to "
     "identity, computing into an occupied qubit, repeated gates); circuit_boolean_optimizer (no preserve list, internal compiler) must "
     "return a circuit on the same qubits with the same unitary (dense simulation), no more gates, leaving the input untouched. "
@@ -21,8 +22,39 @@ def budget(tier):
     return 1500 if tier == "quick" else 60000
 
 
+@st.composite
+def wide_classical(draw):
+    """purely classical circuits on 10..16 qubits: sparse X/CX/CCX gates, swap triples (preferably on the
+    highest qubits), cancelling pairs - compared through the reversible simulator on all 2^n basis states"""
+    n = draw(st.integers(10, 16))
+    gl = []
+    if draw(st.integers(0, 9)) < 3:
+        # a section spanning the whole register whose only non-trivial part is a qubit permutation
+        a, b = (n - 1, n - 2) if draw(st.booleans()) else tuple(draw(gen_circ.qubits(n, 2)))
+        xs = [["X", [q], None] for q in range(n) if q not in (a, b) and draw(st.integers(0, 9)) < 9]
+        sw = [["CX", [a, b], None], ["CX", [b, a], None], ["CX", [a, b], None]]
+        gl = xs + sw if draw(st.booleans()) else sw + xs
+        return {"n": n, "gates": gl, "wide": True}
+    for _ in range(draw(st.integers(1, 4))):
+        k = draw(st.integers(0, 5))
+        if k <= 1:
+            a, b = draw(gen_circ.qubits(n, 2))
+            if draw(st.booleans()):
+                a, b = n - 1, n - 2
+            gl += [["CX", [a, b], None], ["CX", [b, a], None], ["CX", [a, b], None]]
+        elif k == 2:
+            g = draw(gen_circ.gate(n, ["X", "CX", "CCX"]))
+            gl += [g, [g[0], list(g[1]), None]]
+        else:
+            gl += draw(gen_circ.gate_list(n, ["X", "CX", "CCX", "BARRIER"], 1, 3))
+    # touch every qubit so that the section spans the whole register
+    if draw(st.booleans()):
+        gl += [["X", [q], None] for q in range(n)]
+    return {"n": n, "gates": gl, "wide": True}
+
+
 def strategy(tier):
-    return gen_circ.mixed_circuit(1, 5, max_segments=4, run_max=8)
+    return st.one_of(*([gen_circ.mixed_circuit(1, 5, max_segments=4, run_max=8)] * 5 + [wide_classical()]))
 
 
 def judge(case):
@@ -49,13 +81,26 @@ def judge(case):
         return {"status": "violation", "kind": "unknown-gate-in-output", "detail": {"exc": str(e)}, "features": feats}
     if o.num_qubits != n:
         return {"status": "violation", "kind": "qubit-count-changed", "detail": {"n": n, "got": o.num_qubits, "circuit": case["gates"]}, "features": feats}
-    try:
-        U0 = sims.unitary(n, qc.gates)
-        U1 = sims.unitary(n, o.gates)
-    except sims.UnknownGate as e:
-        return {"status": "violation", "kind": "malformed-output-gate", "detail": {"exc": str(e), "out": after, "circuit": case["gates"]}, "features": feats}
-    if float(np.abs(U0 - U1).max()) > TOL:
-        return {"status": "violation", "kind": "unitary-changed", "detail": {"circuit": case["gates"], "optimized": after}, "features": feats}
+    if n > 6:
+        # purely classical wide circuit: compare the permutations on all 2^n basis states (bit-parallel)
+        feats.append("wide")
+        mask = boolsem.full_mask(n)
+        try:
+            c0 = sims.rev_run(qc.gates, list(boolsem.input_columns(n)), mask)
+            c1 = sims.rev_run(o.gates, list(boolsem.input_columns(n)), mask)
+        except (sims.NotClassical, sims.UnknownGate) as e:
+            return {"status": "violation", "kind": "malformed-output-gate", "detail": {"exc": str(e), "out": after, "circuit": case["gates"]}, "features": feats}
+        if c0 != c1:
+            q = [i for i in range(n) if c0[i] != c1[i]][0]
+            return {"status": "violation", "kind": "unitary-changed", "detail": {"circuit": case["gates"], "optimized": after, "qubit": q, "basis_state": boolsem.first_diff_row(c0[q], c1[q])}, "features": feats}
+    else:
+        try:
+            U0 = sims.unitary(n, qc.gates)
+            U1 = sims.unitary(n, o.gates)
+        except sims.UnknownGate as e:
+            return {"status": "violation", "kind": "malformed-output-gate", "detail": {"exc": str(e), "out": after, "circuit": case["gates"]}, "features": feats}
+        if float(np.abs(U0 - U1).max()) > TOL:
+            return {"status": "violation", "kind": "unitary-changed", "detail": {"circuit": case["gates"], "optimized": after}, "features": feats}
     if o.num_gates > qc.num_gates:
         return {"status": "violation", "kind": "more-gates", "detail": {"circuit": case["gates"], "optimized": after}, "features": feats}
     changed = after != before
